@@ -361,7 +361,8 @@ def run(run, tier, loadcfg):
         fx_ = loadcfg(cfg, optional=(cfg == 'nostd'))
         if fx_ is None:
             continue
-        cx = Ctx(fx_)
+        from rules.C17 import _Merged      # the remainder fast path of the phase stepper, folded (see C17.merge_rem_fastpath)
+        cx = _Merged(Ctx(fx_))
         check_shapes(run, cx, cfg)
         check_window_iter(run, cx, cfg)
         check_windower(run, cx, cfg)
